@@ -83,6 +83,43 @@ PROPS = {
         "assumptions": ["wrapper decisions agree under both settings when wrap_column is unconstrained (oracle, not a theorem)",
                         "continuation_indents*tab_width <= 255 (F6)"],
     },
+    "C12": {
+        "level": "proof",
+        "lean": ["PasfmtModel.Props.C12"],
+        "streams": [
+            {"stream": "fmt", "families": "mlsfam,mlsfam,seeds_sample,layout,bytes", "quick": 3000, "thorough": 40000,
+             "binding": ["wc", "prec", "out", "*"], "args": {"oracles": "c12"}},
+        ],
+        "oracle_prefixes": ["c12", "glue"],
+        "abnormal_binding": False,
+        "explanation": "rewriteLines_spec: the re-indenter succeeds exactly when every interior line starts with (or is a prefix of) the "
+                       "closing line's indentation, and then emits per line the configured terminator + exactly ind/cont indentation "
+                       "strings + the unchanged value (trailing blanks included); rejection and off/ignored/other-kind cases leave the "
+                       "text alone. The exact model of multiline_strings.rs is tied to the wrapper stage's before/after contents on "
+                       "every case (wc field: content' = rewrite(content, final counters)); a per-literal value oracle runs on the real "
+                       "formatter.",
+        "assumptions": ["ReflowKeepsStringIndent: a literal's counters are not changed by the reflow (part of the per-case wc check)",
+                        "the literal re-scans as one literal after rewriting (oracle c12 + C02 oracle), not yet a theorem"],
+    },
+    "C15": {
+        "level": "proof",
+        "lean": ["PasfmtModel.Props.C15"],
+        "streams": [
+            {"stream": "fmt", "families": ALL_FAMILIES, "quick": 2500, "thorough": 30000,
+             "binding": ["cur", "out", "*"], "args": {"oracles": "c15"}},
+            {"stream": "fmt", "name": "allcursors", "families": "seeds_sample,soup,bytes,regions,mlsfam", "quick": 1200, "thorough": 20000,
+             "binding": ["cur", "*"], "args": {"oracles": "c15", "cursors_all": 1}},
+        ],
+        "oracle_prefixes": ["c15", "glue"],
+        "abnormal_binding": False,
+        "explanation": "Exact model of process_cursors/relocate_cursors with checked subtraction and u16 truncation; theorems: "
+                       "offset_for_token is the true offset of the token text (no safety net), cursor inside/at the end of a token maps "
+                       "to start'+min(o,len'), cursors past the end map to the end of the output, the model's format takes no cursor "
+                       "argument; the F3 underflow is exhibited on the model by decide. The model is compared with Formatter::format on "
+                       "every case, including every character boundary of small inputs.",
+        "assumptions": ["files smaller than 4 GiB (u32 cursor); no safety-net newline before the token (offset_for_token does not count it)",
+                        "multi-line tokens with lines >= 65536 bytes truncate (known finding F7)"],
+    },
     "C13": {
         "level": "proof",
         "lean": ["PasfmtModel.Props.C13"],
